@@ -25,6 +25,7 @@ theorem new_eq (sp ep : Nat) :
       else if ep = 0 then .err .InvalidParameter
       else .ok (fresh sp ep) := by
   unfold new
+  try simp only [gen_helper]
   rw [FastStochastic.new_eq, ExponentialMovingAverage.new_eq]
   by_cases h0 : sp = 0
   · simp [h0, bind, Res.bind]
